@@ -40,7 +40,38 @@ PLAIN = ['/search?q=caf%C3%A9&page=2', '/wiki/%E4%BD%A0%E5%A5%BD', 'name%2Cdate'
 OBJECTS = [1, 'text', None, True, 3.5, ('a', 1), ['l', ['nested', {'k': (1, 2)}]], {'user': 'é', 'roles': ['a', 'b'], 'n': 10**20},
            b'\x00bytes\xff', '', 'x' * 500, {'日本': '語'}, frozenset({1, 2}), [], {}]
 SENT = object()
+import collections as _co
 import datetime as _dt
+import decimal as _dec
+import enum as _en
+import fractions as _fr
+
+
+Point = _co.namedtuple('Point', 'x y')
+
+
+class Color(_en.Enum):
+    RED = 1
+    GREEN = 2
+
+
+class Cart:
+    """an application class of the kind session cookies carry"""
+
+    def __init__(self, items):
+        self.items = items
+
+    def __eq__(self, other):
+        return type(other) is Cart and other.items == self.items
+
+    def __repr__(self):
+        return 'Cart(%r)' % (self.items,)
+
+
+# "any picklable value": what applications keep in sessions beside the built-in containers
+OBJECTS += [_dt.datetime(2024, 2, 29, 12, 30, 15), _dt.date(2031, 1, 1), _dec.Decimal('19.99'), _fr.Fraction(2, 3), _co.OrderedDict([('b', 1), ('a', 2)]), Point(1, -2), Color.GREEN,
+            Cart(['book', 3]), {'when': _dt.timedelta(hours=5), 'cart': Cart([]), 'price': _dec.Decimal('0.10')}, (), set(), 0, False, 0.0, b'', bytearray(b'ba'), 2 ** 70, -1, complex(1, 2), range(3)]
+
 COOKIE_OPTIONS = [{}, {}, {'path': '/acc'}, {'max_age': 3600}, {'max_age': _dt.timedelta(hours=1)}, {'expires': 0}, {'expires': _dt.datetime(2031, 5, 4, 3, 2, 1)}, {'expires': 1924992000.5},
                   {'httponly': True, 'secure': True}, {'domain': 'example.com', 'path': '/acc'}, {'samesite': 'lax'}, {'max_age': _dt.timedelta(days=2, seconds=5), 'path': '/acc', 'httponly': True}]
 
